@@ -119,6 +119,8 @@ class C05(Prop):
             op = {"id": 1, "s": 0, "op": "walk", "method": method, "oid": gen.oid_text(base), "limit": 400}
             if method == "getbulk" and rng.random() < 0.5:
                 op["max_rep"] = max_rep
+                if rng.random() < 0.15:
+                    op["max_rep"] = 0  # "any max_repetitions": a per-call 0 falls back to the session's default
             sessions = [sess]
             ops = [op]
             if family == "benign-faults" and rng.random() < 0.5:
